@@ -35,6 +35,10 @@ type Rule struct {
 	Verb string `json:"verb"`
 	Nth  int    `json:"nth,omitempty"`
 	Conn int    `json:"conn,omitempty"` // 0 = any connection, else 1-based connection index
+	// LineContains, if set, restricts the rule to command lines containing this text (Nth then
+	// counts matching lines only when NthOfMatch is set; by default Nth still counts all lines
+	// of the verb)
+	LineContains string `json:"lineContains,omitempty"`
 	Action
 }
 
@@ -202,6 +206,7 @@ type Session struct {
 	mailUTF8 bool
 	stallAfterWrite int64
 	lastAuth        bool // the previous command was an AUTH exchange
+	curLine         string
 }
 
 func (s *Session) state() string {
@@ -250,7 +255,8 @@ func (s *Session) rule(verb string) (Action, int, bool) {
 	s.counts[verb]++
 	n := s.counts[verb]
 	for _, r := range s.srv.Cfg.Rules {
-		if r.Verb == verb && (r.Nth == 0 || r.Nth == n) && (r.Conn == 0 || r.Conn == s.ID) {
+		if r.Verb == verb && (r.Nth == 0 || r.Nth == n) && (r.Conn == 0 || r.Conn == s.ID) &&
+			(r.LineContains == "" || strings.Contains(s.curLine, r.LineContains)) {
 			return r.Action, n, true
 		}
 	}
@@ -499,6 +505,7 @@ func (s *Session) caps() []string {
 }
 
 func (s *Session) handle(line string) bool {
+	s.curLine = line
 	c := ParseCommand(line)
 	act, nth, _ := Action{}, 0, false
 	afterAuth := s.lastAuth
